@@ -37,6 +37,21 @@ Section C14.
   Proof. intros a k s s1 x H. unfold seq. now rewrite H. Qed.
 End C14.
 
+(* non-vacuity: a body with an escaped expression inside a conditional, run against a sink that
+   takes two bytes, reports Interrupted, takes three more and then fails for good: the hypotheses of
+   exec_prefix hold, the failure comes back, and what was accepted is a proper prefix of the rendering;
+   the same body on a sink that only delivers short writes and Interrupted gets everything *)
+Example a_failing_and_a_slow_sink :
+  let o := {| o_val := fun (_ : nat) _ => VDisplay [b "<b>"]; o_if := fun e _ => Some e;
+              o_for := fun _ _ _ => []; o_match := fun _ _ _ => None; o_call := fun _ _ _ => None |} in
+  let items := [TText (b "x="); TIf (b "c") [TExpr (b "v"); TText (b "!")] None; TText (b ".")] in
+  let bad := {| sched := [Accept 2; Interrupted; Accept 3; Fail 7]; log := [] |} in
+  let slow := {| sched := [Accept 1; Interrupted; Accept 1; Interrupted; Interrupted; Accept 2]; log := [] |} in
+  render nat o 5 0 [] items = Some (b "x=&lt;b&gt;!.") /\
+  (let '(s', r) := exec nat o 5 0 [] items bad in r = Failed (Io 7) /\ log s' = b "x=&lt") /\
+  (let '(s', r) := exec nat o 5 0 [] items slow in r = Done /\ log s' = b "x=&lt;b&gt;!." /\ no_fault (sched slow)).
+Proof. vm_compute. repeat split; try reflexivity; repeat constructor. Qed.
+
 (* the error returned is the sink's own: a write_all fails only with what `write` returned, or
    with WriteZero when the sink accepted nothing *)
 Theorem sink_error_is_returned : forall fuel s d s' e,
@@ -61,5 +76,6 @@ Qed.
 Redirect "assumptions/C14.exec_prefix" Print Assumptions exec_prefix.
 Redirect "assumptions/C14.exec_partial_interrupt_invariant" Print Assumptions exec_partial_interrupt_invariant.
 Redirect "assumptions/C14.exec_error_propagates" Print Assumptions exec_error_propagates.
+Redirect "assumptions/C14.a_failing_and_a_slow_sink" Print Assumptions a_failing_and_a_slow_sink.
 Redirect "assumptions/C14.sink_error_is_returned" Print Assumptions sink_error_is_returned.
 Redirect "assumptions/C14.question_marks_present" Print Assumptions question_marks_present.
